@@ -191,6 +191,8 @@ def run_sync_decoy(case, ctx, w, classes):
         return Outcome(ok=False, why="after sync (%s): %s" % (mode, probs[0]))
     if matched_decoys and mode != "nocopy":
         r2 = w.cmd("sync", ["-E", "-Z", "-N"])
+        if r2.rc != 0 and b"Insufficient parity space" in r2.err:
+            return Outcome(ok=True, classes=sorted(classes | {"parity limit reached (legitimate refusal)"}))
         if r2.rc != 0:
             return Outcome(ok=False, why="sync --force-nocopy after the refused sync exits %d" % r2.rc)
         c2 = w.content_model()
